@@ -59,6 +59,7 @@ import (
 	"net"
 	"strings"
 	"sync"
+	"time"
 
 	"github.com/miekg/dns"
 	"github.com/semihalev/sdns/config"
@@ -647,6 +648,20 @@ func (w *responseWriter) synthesise(orig *dns.Msg) (*dns.Msg, error) {
 	for _, a := range addresses {
 		if a.Hdr.Ttl < ttl {
 			ttl = a.Hdr.Ttl
+		}
+	}
+	// The pieces this answer is composed from may have been served from the
+	// cache, and a cached answer without records (a NODATA with no SOA, held
+	// for the cache's floor) has nothing that carries its remaining lifetime
+	// up here. The cache folds every hit's expiry into the request tree's
+	// bound; the synthesised records must not outlive it.
+	if cut := middleware.ResponseMetaFrom(w.ctx).CutUntil(); !cut.IsZero() {
+		left := time.Until(cut)
+		if left < 0 {
+			left = 0
+		}
+		if secs := uint64(left / time.Second); secs < uint64(ttl) {
+			ttl = uint32(secs) //nolint:gosec // bounded by ttl
 		}
 	}
 
